@@ -47,6 +47,7 @@ type respCase struct {
 
 	body    []byte
 	encoded []byte
+	ttl     int
 }
 
 type compOp struct {
@@ -357,7 +358,8 @@ func Response(w *world.World, raws []json.RawMessage) ([]interface{}, error) {
 		h := http.Header{}
 		h.Set("Content-Type", c.CType)
 		if c.Cacheable {
-			h.Set("Cache-Control", "max-age=60")
+			// (a lifetime of two seconds for every third case: how a response is stored does not depend on how long for)
+			h.Set("Cache-Control", "max-age="+strconv.Itoa(c.ttl))
 		} else {
 			h.Set("Cache-Control", "no-cache")
 		}
@@ -368,7 +370,7 @@ func Response(w *world.World, raws []json.RawMessage) ([]interface{}, error) {
 		h.Set("X-Utf8", "h\u00e9llo w\u00f6rld \u4e16\u754c")
 		h.Set("X-Latin1", "h\xe9llo w\xf6rld")
 		h.Set("Etag", `"v1"`)
-		return world.Outcome{Kind: "raw", Header: h, Status: c.Status, Body: c.encoded, Lifetime: 60}
+		return world.Outcome{Kind: "raw", Header: h, Status: c.Status, Body: c.encoded, Lifetime: c.ttl}
 	}
 	w.SetClock(1000)
 	var out []interface{}
@@ -494,6 +496,10 @@ func Response(w *world.World, raws []json.RawMessage) ([]interface{}, error) {
 				}
 				out = append(out, o)
 				continue
+			}
+			c.ttl = 60
+			if i%3 == 1 {
+				c.ttl = 2
 			}
 			c.body = makeBody(c, i)
 			enc, err := refEncode(c.UpEnc, c.body)
